@@ -687,7 +687,9 @@ def main(chk: Check, replay: dict | None = None) -> int:
                 pipe_inputs.append((pos, payload_for(pos, key_payloads[(i * 3 + j) % len(key_payloads)])))
             pipe_inputs.append((pos, payload_for(pos, rng.choice(HOSTILE))))
             pipe_inputs.append((pos, payload_for(pos, rand_text(rng, 1, 8))))
-    pipe_inputs = list(dict.fromkeys(p for p in pipe_inputs if p[1] != ""))
+    # \N{name} escapes: the lexer model answers "error" by design (no Unicode name table), CPython accepts valid names;
+    # such payloads are exercised at site level (string equality) but not in the predicted-verdict relation
+    pipe_inputs = list(dict.fromkeys(p for p in pipe_inputs if p[1] != "" and "\\N{" not in p[1]))
     pipe_cases = [run_pipeline(pos, p) for pos, p in pipe_inputs]
     codes = None
     if chk.model_ok:
@@ -695,6 +697,10 @@ def main(chk: Check, replay: dict | None = None) -> int:
     chk.decide(pipe_cases, codes, guard_map(), "Corr.C15.run_pipe: all sites fed by the position inert (model) = files parse, same skeleton, "
                                                "value recovered (implementation)")
 
+    if os.environ.get("VERIF_C15_DEBUG"):   # developer aid: list every model/implementation disagreement
+        for c in lex_cases + site_cases + pipe_cases:
+            if c.get("code") is not None and c["code"] & 1:
+                print("MISMATCH", json.dumps(c["input"]), c["oracle_fail"], json.dumps(c["obs"], default=str)[:200])
     allc = lex_cases + site_cases + pipe_cases
     chk.cov["evaluations"] = len(allc)
     chk.cov["distinct_nontrivial"] = len({json.dumps(c["input"], sort_keys=True) for c in site_cases + pipe_cases
